@@ -231,3 +231,194 @@ def model_line(case, net=None):
     return " ".join(["m-connect", hx(case.url)] + opts_args(case.options) +
                     [lim, us, sslopt_arg(case.sslopt), tlsenv_arg(case.env, case.isfile, case.isdir),
                      url_table([case.url] + case.locations), px, dials])
+
+
+# ---- (de)serialisation of cases (corpus / replay files) -----------------------------------------
+
+_CERTJ = {None: None, ssl.CERT_NONE: "N", ssl.CERT_OPTIONAL: "O", ssl.CERT_REQUIRED: "R"}
+_CERTB = {None: None, "N": ssl.CERT_NONE, "O": ssl.CERT_OPTIONAL, "R": ssl.CERT_REQUIRED}
+
+
+def _ev_json(events):
+    return [[e[0], bytes(e[1]).hex()] if e[0] == "chunk" else [e[0]] for e in events]
+
+
+def _ev_back(j):
+    return [("chunk", bytes.fromhex(e[1])) if e[0] == "chunk" else (e[0],) for e in j]
+
+
+def dial_json(d):
+    return {"events": _ev_json(d.events), "tail": d.tail, "addr": d.addr, "wrap": d.wrap,
+            "rand": bytes(d.rand).hex(), "sends_left": d.sends_left}
+
+
+def dial_back(j):
+    return DialSpec(_ev_back(j["events"]), tail=j["tail"], addr=j["addr"], wrap=j["wrap"],
+                    rand=bytes.fromhex(j["rand"]), sends_left=j["sends_left"])
+
+
+def case_json(c):
+    so = None
+    if c.sslopt is not None:
+        so = {k: v for k, v in c.sslopt.items() if k not in ("cert_reqs", "context")}
+        if "cert_reqs" in c.sslopt:
+            so["cert_reqs"] = _CERTJ[c.sslopt["cert_reqs"]]
+        if c.sslopt.get("context") is not None:
+            so["context"] = c.sslopt["context"].rec_user_id
+    return {"url": c.url, "options": c.options, "limit": c.limit, "sslopt": so, "env": c.env,
+            "isfile": list(c.isfile), "isdir": list(c.isdir),
+            "proxy": None if c.proxy is None else [c.proxy[0], c.proxy[1],
+                                                   None if c.proxy[2] is None else list(c.proxy[2])],
+            "user_sock": None if c.user_sock is None else dial_json(c.user_sock),
+            "dials": [dial_json(d) for d in c.dials], "via": c.via,
+            "seed_cookies": list(c.seed_cookies), "locations": c.locations, "tag": c.tag}
+
+
+def case_back(j):
+    so = None
+    if j.get("sslopt") is not None:
+        so = dict(j["sslopt"])
+        if "cert_reqs" in so:
+            so["cert_reqs"] = _CERTB[so["cert_reqs"]]
+        if so.get("context") is not None:
+            so["context"] = user_context(so["context"])
+    px = j.get("proxy")
+    if px is not None:
+        px = (px[0], px[1], None if px[2] is None else tuple(px[2]))
+    return Case(j["url"], [dial_back(d) for d in j["dials"]], options=j.get("options") or {},
+                limit=j.get("limit"), sslopt=so, env=j.get("env") or {}, isfile=j.get("isfile", ()),
+                isdir=j.get("isdir", ()), proxy=px,
+                user_sock=None if j.get("user_sock") is None else dial_back(j["user_sock"]),
+                via=j.get("via", "connect"), seed_cookies=j.get("seed_cookies", ()),
+                locations=j.get("locations", []), tag=j.get("tag", ""))
+
+
+def load_corpus(prop):
+    import glob
+    import json
+    import os
+    out = []
+    for p in sorted(glob.glob(os.path.join(common.VERIF, "corpus", prop, "*.json"))):
+        with open(p) as f:
+            out.append((os.path.basename(p), json.load(f)))
+    return out
+
+
+# ---- unit level: read_headers / _get_resp_headers / _validate against the model ------------------
+
+F8_HEADS = [
+    (b"HTTP/1.1\r\n\r\n", "status-line-without-code"),
+    (b"HTTP/1.1 abc OK\r\n\r\n", "non-numeric-status"),
+    (b"\xff\xfe 101\r\n\r\n", "undecodable-head"),
+    (b"HTTP/1.1 0 OK\r\nfoo: bar\r\n\r\n", "header-after-status-0"),
+    (b"HTTP/1.1 400 Bad\r\nContent-Length: zz\r\n\r\n", "non-numeric-content-length"),
+    (b"HTTP/1.1 400 Bad\r\nContent-Length: 999999999\r\n\r\n", "declared-length-to-recv"),
+    (b"HTTP/1.1 400 Bad\r\nContent-Length: -5\r\n\r\nhello", "negative-content-length"),
+]
+
+
+def head_streams(rnd, thorough):
+    """byte streams for the head phase: grammar-based, corrupted, truncated, exhaustive short ones"""
+    import itertools
+    out = [h for h, _ in F8_HEADS]
+    k = key_of(bytes(16))
+    good = response("101", good_headers(k))
+    redir = response("301", [("Location", "ws://h/")], reason="Moved")
+    bad = response("404", [("Content-Length", "3")], reason="Not Found", body=b"abc")
+    out += [good, redir, bad, b"", b"\r\n", b"\n", b"\r\n\r\n"]
+    # status-line zoo
+    for st in ["101", " 101", "+101", "-101", "1_0_1", "0101", "0", "00", "-0", "1e2", "1.0", "", "١٠١",
+               "1" * 4300, "1" * 4301, "0x65", "101\t", "\t101", "\x0b101", "\x1c101", "10 1"]:
+        for ver in ["HTTP/1.1", "FOO", ""]:
+            for reason in [None, "OK", "Switching Protocols", ""]:
+                out.append(response(st, good_headers(k), version=ver, reason=reason))
+    # header-line zoo
+    for line in ["Upgrade:websocket", "Upgrade:  websocket  ", "Upgrade : websocket", "upgrade: websocket",
+                 "UPGRADE: WEBSOCKET", " Upgrade: websocket", "Upgrade", ":", ": x", "a:b:c", "Upgrade:",
+                 "Set-Cookie: a=1", "Set-Cookie: b=2", "set-cookie:", "X:\t y \t", "X: caf\u00e9", "X: \u00a0y",
+                 "\u0130: x", "X: a\x1c", "\x1cX: a", "Content-Length: 12"]:
+        out.append(response("101", []).replace(b"\r\n\r\n", b"\r\n" + line.encode("utf-8") + b"\r\n\r\n"))
+        out.append(response("101", [("Set-Cookie", "z=9")]).replace(
+            b"\r\n\r\n", b"\r\n" + line.encode("utf-8") + b"\r\nSet-Cookie: q=1\r\n\r\n"))
+    # line endings
+    for eol in ["\n", "\r", "\r\r\n", "\n\r"]:
+        out.append(response("101", good_headers(k), eol=eol))
+    # error bodies
+    for cl in ["0", "1", "3", "5", "70000", "999999999", "zz", "", " 3 ", "+3", "-1", "3.0", "1_0", "1" * 4301]:
+        for body in [b"", b"abc", b"abcdef"]:
+            out.append(response("400", [("Content-Length", cl)], reason="Bad", body=body))
+            out.append(response("200", [("content-length", cl), ("Content-Length", "2")], reason="OK", body=body))
+    # truncations and single-byte corruptions of the good / redirect / bad heads
+    for base in (good, redir, bad):
+        for i in range(len(base) + 1):
+            out.append(base[:i])
+        n = len(base) if thorough else 60
+        for _ in range(n):
+            i = rnd.randrange(len(base))
+            b = bytearray(base)
+            b[i] = rnd.choice([0, 9, 10, 13, 32, 48, 58, 65, 0x80, 0xC3, 0xFF, rnd.randrange(256)])
+            out.append(bytes(b))
+    # exhaustive short streams
+    alpha = [b"H", b"1", b" ", b"0", b":", b"\r\n"]
+    maxlen = 5 if thorough else 4
+    for n in range(1, maxlen + 1):
+        for t in itertools.product(alpha, repeat=n):
+            out.append(b"".join(t) + b"\r\n\r\n")
+    for a in range(256):
+        out.append(bytes([a]))
+        out.append(bytes([a]) + b" 101\r\n\r\n")
+        out.append(b"HTTP/1.1 101 " + bytes([a]) + b"\r\n\r\n")
+    if thorough:
+        for a in range(256):
+            for b in (0x0A, 0x20, 0x80, 0xBF, 0xC3, 0xE2, 0xF0):
+                out.append(bytes([a, b]) + b"\r\n\r\n")
+    # random soup
+    for _ in range(3000 if thorough else 400):
+        n = rnd.randint(1, 40)
+        out.append(bytes(rnd.choice(b"HTP/1. 0\r\n:aZ\xc3\xa9\xff") for _ in range(n)) + rnd.choice([b"", b"\r\n\r\n"]))
+    return list(dict.fromkeys(out))
+
+
+def head_events(rnd, stream):
+    """the stream as a script: one chunk, or cut in pieces with a timeout / reset somewhere"""
+    r = rnd.random()
+    if r < 0.7 or len(stream) < 2:
+        return [("chunk", stream)], "eof"
+    i = rnd.randrange(1, len(stream))
+    if r < 0.8:
+        return [("chunk", stream[:i]), ("chunk", stream[i:])], "eof"
+    if r < 0.9:
+        return [("chunk", stream[:i]), ("timeout",), ("chunk", stream[i:])], "eof"
+    if r < 0.95:
+        return [("chunk", stream[:i]), ("reset",)], "eof"
+    return [("chunk", stream[:i])], "timeout"
+
+
+def _odict(d):
+    return "_" if not d else ";".join(f"{hx(k)}={hx(v)}" for k, v in d.items())
+
+
+def real_read_headers(events, tail):
+    from websocket._http import read_headers
+    from simnet_h2 import H2Socket, Net
+    net = Net([])
+    s = H2Socket(net, 0, DialSpec(events, tail=tail))
+    try:
+        status, headers, msg = read_headers(s)
+        left = sum(len(e[1]) for e in s.events if e[0] == "chunk")
+        return f"ok {status} {hopt(msg)} {_odict(headers)} reads={len(s.recv_sizes)} left={left}", s
+    except Exception as e:  # noqa
+        return f"exn {common.canon_exc(e)} reads={len(s.recv_sizes)}", s
+
+
+def real_resp_headers(events, tail):
+    from websocket._handshake import _get_resp_headers
+    from simnet_h2 import H2Socket, Net
+    net = Net([])
+    net.phase = ""
+    s = H2Socket(net, "", DialSpec(events, tail=tail))
+    try:
+        status, headers = _get_resp_headers(s)
+        return f"ok {status} {_odict(headers)} io={net.trace()}", s
+    except Exception as e:  # noqa
+        return f"exn {common.canon_exc(e)} io={net.trace()}", s
